@@ -92,6 +92,7 @@ fn main() {
         "run" => supervisor(&args[2], &args[3]),
         "work" => worker(&args[2], &args[3], args[4].parse().unwrap(), &args[5]),
         "replay" => replay(&args[2]),
+        "lp" => probe_lp(&args[2]),
         _ => {
             eprintln!("usage: vmon run <Cxx> <quick|thorough> | replay <file> | selftest");
             2
@@ -488,4 +489,23 @@ fn replay(file: &str) -> i32 {
         }
         1
     }
+}
+
+/// triage helper: vmon lp '{"mat":[[..]],"bias":[..],"cost":[..]}' prints the library's and the exact answer
+fn probe_lp(arg: &str) -> i32 {
+    let v: Value = serde_json::from_str(arg).expect("json");
+    let mat: Vec<Vec<f64>> = serde_json::from_value(v["mat"].clone()).unwrap();
+    let bias: Vec<f64> = serde_json::from_value(v["bias"].clone()).unwrap();
+    let cost: Vec<f64> = serde_json::from_value(v["cost"].clone()).unwrap();
+    let a = gen::Aff { mat, bias };
+    let p = a.to_poly();
+    println!("library: {:?}", p.solve_linprog(gen::arr1(&cost), false));
+    let sys = a.sys();
+    println!("exact:   {:?}", lpx::minimize(&sys, &q::qv(&cost)).map(|o| match o {
+        lpx::Opt::Infeasible(_) => "infeasible".to_string(),
+        lpx::Opt::Unbounded { ray, .. } => format!("unbounded ray {:?}", ray.iter().map(|q| q.to_f64()).collect::<Vec<_>>()),
+        lpx::Opt::Optimal { x, value, .. } => format!("optimal value {} at {:?}", value.to_f64(), x.iter().map(|q| q.to_f64()).collect::<Vec<_>>()),
+    }));
+    println!("rank {} of {} columns", lpx::rank(&sys.a, sys.n), sys.n);
+    0
 }
